@@ -556,8 +556,8 @@ func vfC18GenBody(rt *rapid.T, n int) vfC18Body {
 	b.G2 = vfC18GenGrants(rt, "g2", names, vfC18Channels)
 	b.P1 = vfC18GenGrants(rt, "p1", vfC18Users, vfC18Roles)
 	b.P2 = vfC18GenGrants(rt, "p2", vfC18Users, vfC18Roles)
-	b.J1 = rapid.IntRange(0, 5).Draw(rt, "j1") == 0
-	b.J2 = rapid.IntRange(0, 5).Draw(rt, "j2") == 0
+	b.J1 = rapid.IntRange(0, 3).Draw(rt, "j1") == 0
+	b.J2 = rapid.IntRange(0, 3).Draw(rt, "j2") == 0
 	return b
 }
 
@@ -1044,6 +1044,12 @@ func vfC18LeafDiff(s *vfC18Spec, o vfC18Obs) []string {
 
 var vfC18Timing = os.Getenv("VERIF_C18_TIMING") != ""
 
+// vfC18SingleNode: a database that starts online on a bucket whose sequence counter is non-zero
+// waits 1.5 s for other nodes to release their sequence batches. There is one node here and the
+// previous context was closed (its batch released), so the repository's single-node switch (set by
+// the rest package's TestMain for all its tests) is applied.
+func vfC18SingleNode() { BypassReleasedSequenceWait.Store(true) }
+
 type vfC18Result struct {
 	Diffs        []string // resynced vs fresh
 	Idempotence  []string // second resync changed something
@@ -1200,5 +1206,80 @@ func vfC18Run(t *testing.T, rec *kit.Rec, rt *rapid.T) {
 func TestVerif_C18_Resync(t *testing.T) {
 	rec := kit.New("C18", "Resync")
 	defer rec.Flush()
+	vfC18SingleNode()
 	rapid.Check(t, func(rt *rapid.T) { vfC18Run(t, rec, rt) })
+}
+
+// ---------------------------------------------------------------------------------------------
+// regression reproductions of the listed findings (plain tests, never a verdict while listed)
+
+type vfC18Repro struct {
+	Sig  string
+	Spec *vfC18Spec
+}
+
+func vfC18Repros() []vfC18Repro {
+	users := func(u1chans ...string) []vfC18Principal {
+		return []vfC18Principal{{Name: "u1", Chans: u1chans}, {Name: "u2"}, {Name: "u3"}}
+	}
+	live := func(id, parent string, b vfC18Body) vfC18Rev { return vfC18Rev{ID: id, Parent: parent, Body: b} }
+	dead := func(id, parent string) vfC18Rev { return vfC18Rev{ID: id, Parent: parent, Deleted: true} }
+	return []vfC18Repro{
+		{vfC18SigTombstones, &vfC18Spec{Deflt: true, A: vfC18Fn{Chan: "c1"}, B: vfC18Fn{Chan: "c1", DelChan: true}, Users: users(),
+			Docs: []vfC18Doc{{ID: "d1", Kind: "tombstoned", Revs: []vfC18Rev{live("1-a", "", vfC18Body{N: 1, C1: []string{"X"}}), dead("2-b", "1-a")}}}}},
+		{vfC18SigRegen, &vfC18Spec{Deflt: true, A: vfC18Fn{Chan: "c1", Acc: "g1"}, B: vfC18Fn{Chan: "c1", Acc: "g2"}, Regen: true, Users: users(),
+			Docs: []vfC18Doc{{ID: "d1", Kind: "linear", Revs: []vfC18Rev{live("1-a", "", vfC18Body{N: 1, C1: []string{"X"},
+				G1: []vfC18Grant{{Who: []string{"u1"}, What: []string{"X"}}}, G2: []vfC18Grant{{Who: []string{"u1"}, What: []string{"Y"}}}})}}}}},
+		{vfC18SigRejected, &vfC18Spec{Deflt: true, A: vfC18Fn{Chan: "c1"}, B: vfC18Fn{Chan: "c1", Rej: "j1"}, Users: users("X"),
+			Docs: []vfC18Doc{{ID: "d1", Kind: "linear", Revs: []vfC18Rev{live("1-a", "", vfC18Body{N: 1, C1: []string{"X"}}),
+				live("2-b", "1-a", vfC18Body{N: 2, C1: []string{"X"}, J1: true})}}}}},
+		{vfC18SigLateReject, &vfC18Spec{Deflt: true, A: vfC18Fn{Chan: "c1"}, B: vfC18Fn{Chan: "c1", Rol: "p1", Rej: "j1", RejLate: true}, Users: users(),
+			Roles: []vfC18Principal{{Name: "r1", Chans: []string{"X"}}},
+			Docs: []vfC18Doc{{ID: "d1", Kind: "linear", Revs: []vfC18Rev{live("1-a", "", vfC18Body{N: 1, J1: true,
+				P1: []vfC18Grant{{Who: []string{"u1"}, What: []string{"r1"}}}})}}}}},
+		{vfC18SigLeafSkipped, &vfC18Spec{Deflt: true, A: vfC18Fn{Chan: "c1"}, B: vfC18Fn{Chan: "c2"}, Users: users(),
+			Docs: []vfC18Doc{{ID: "d1", Kind: "conflict-2-live", Revs: []vfC18Rev{live("1-a", "", vfC18Body{N: 1}),
+				live("2-c", "1-a", vfC18Body{N: 2, C1: []string{"W"}, C2: []string{"W"}}),
+				live("2-b", "1-a", vfC18Body{N: 3, C1: []string{"X"}, C2: []string{"Y"}})}}}}},
+	}
+}
+
+// TestVerif_C18_Known executes the minimal reproduction of every listed finding. While a finding
+// is listed as open its reproduction prints KNOWN-FINDING; once the entry is removed or marked
+// fixed a reproduction that still fails is a violation (and the rapid test generates the shape again).
+func TestVerif_C18_Known(t *testing.T) {
+	rec := kit.New("C18", "Known")
+	defer rec.Flush()
+	vfC18SingleNode()
+	for _, r := range vfC18Repros() {
+		render := r.Spec.render()
+		hasShape := false
+		for _, sig := range r.Spec.shapes() {
+			if sig == r.Sig {
+				hasShape = true
+			}
+		}
+		if !hasShape {
+			t.Fatalf("HARNESS C18: reproduction for %s is not recognised by the shape predicate (shapes %v)\ncase: %s", r.Sig, r.Spec.shapes(), render)
+		}
+		res, err := vfC18Execute(t, r.Spec)
+		if err != nil {
+			if vfIsInconclusive(err) {
+				rec.Inconclusive()
+				kit.InconclusiveLine("C18", "%v", err)
+				continue
+			}
+			t.Fatalf("HARNESS C18: reproduction %s: %v", r.Sig, err)
+		}
+		diffs := append(append([]string{}, res.Diffs...), res.Idempotence...)
+		rec.Case(render, false, "repro:"+r.Sig, fmt.Sprintf("repro-still-fails=%v", len(diffs) > 0))
+		switch {
+		case len(diffs) == 0:
+			kit.Note("C18", "reproduction of %s no longer fails on this tree", r.Sig)
+		case kit.Known("C18", r.Sig):
+			kit.KnownFinding("C18", r.Sig, fmt.Sprintf("%s | reproduction: %s | observed: %s", kit.KnownWhat("C18", r.Sig), render, strings.Join(diffs, " / ")))
+		default:
+			kit.Violation(t, "C18", "Known", render, "%s", strings.Join(diffs, "\n"))
+		}
+	}
 }
